@@ -1134,7 +1134,7 @@ func (r *Runtime) arrayproto_find(call FunctionCall) Value {
 	}
 	for k := int64(0); k < l; k++ {
 		idx := valueInt(k)
-		kValue := o.self.getIdx(idx, nil)
+		kValue := nilSafe(o.self.getIdx(idx, nil))
 		fc.Arguments[0], fc.Arguments[1] = kValue, idx
 		if predicate(fc).ToBoolean() {
 			return kValue
@@ -1154,7 +1154,7 @@ func (r *Runtime) arrayproto_findIndex(call FunctionCall) Value {
 	}
 	for k := int64(0); k < l; k++ {
 		idx := valueInt(k)
-		kValue := o.self.getIdx(idx, nil)
+		kValue := nilSafe(o.self.getIdx(idx, nil))
 		fc.Arguments[0], fc.Arguments[1] = kValue, idx
 		if predicate(fc).ToBoolean() {
 			return idx
@@ -1174,7 +1174,7 @@ func (r *Runtime) arrayproto_findLast(call FunctionCall) Value {
 	}
 	for k := int64(l - 1); k >= 0; k-- {
 		idx := valueInt(k)
-		kValue := o.self.getIdx(idx, nil)
+		kValue := nilSafe(o.self.getIdx(idx, nil))
 		fc.Arguments[0], fc.Arguments[1] = kValue, idx
 		if predicate(fc).ToBoolean() {
 			return kValue
@@ -1194,7 +1194,7 @@ func (r *Runtime) arrayproto_findLastIndex(call FunctionCall) Value {
 	}
 	for k := int64(l - 1); k >= 0; k-- {
 		idx := valueInt(k)
-		kValue := o.self.getIdx(idx, nil)
+		kValue := nilSafe(o.self.getIdx(idx, nil))
 		fc.Arguments[0], fc.Arguments[1] = kValue, idx
 		if predicate(fc).ToBoolean() {
 			return idx
